@@ -58,7 +58,7 @@ PROPS = {
                 rule="as C01 plus stand-alone IPA proofs; byte-for-byte comparison of the serialized proof and of the post-proof challenge with the Lean model (which reproduces the published cross-implementation vectors), under several CPU-count/GOMAXPROCS configurations."),
     "C04": dict(ties=['Loops', 'Protocol', 'BVector', 'Schedules', 'Consts', 'GoIpa.Lemmas.IpaAlgebra', 'GoIpa.Lemmas.FoldingScalars', 'GoIpa.Props.C04Value', 'GoIpa.Lemmas.Simulation', 'GoIpa.Props.ConcreteExec'], level="proof", selftest=True, modes=[{"name": "default"}, {"name": "cpu3", "prefix": taskset(3)}, {"name": "cpu6-procs5", "prefix": taskset(6), "env": {"GOMAXPROCS": "5"}}],
                 rule="evaluation points 0,1,254,255,256,257,2^64-1,2^64,2^64+1,r-1,r-256,random x polynomials zero/constant/unit/sparse/r-1/random; result p(z) must be accepted, p(z)+1, p(z)-1 and 0 rejected (asserted on the implementation); barycentric value against direct Lagrange evaluation."),
-    "C05": dict(ties=['Formulas', 'Consts', 'Selector', 'Precomp', 'PrecompFull', 'BatchConv', 'GoIpa.Props.C05Translated'], level="proof",
+    "C05": dict(ties=['Formulas', 'Consts', 'Selector', 'Precomp', 'PrecompFull', 'BatchConv', 'CRS', 'GoIpa.Props.C05Translated'], level="proof",
                 modes=[{"name": "default"}, {"name": "cpu6", "prefix": taskset(6)}, {"name": "cpu3-procs3", "prefix": taskset(3)},
                        {"name": "crs-prefix-first", "env": {"VERIF_CRS_FIRST": "5"}, "filter": "^(ptab |commit s|commit r)"}],
                 thorough=dict(modes=[{"name": "default"}, {"name": "cpu6", "prefix": taskset(6)}, {"name": "cpu3-procs3", "prefix": taskset(3)},
